@@ -16,6 +16,7 @@ import (
 	"context"
 	"crypto/sha256"
 	"encoding/json"
+	"errors"
 	"fmt"
 	"io"
 	"log/slog"
@@ -43,10 +44,28 @@ type c15Runner struct {
 	created   time.Time
 	closedNs  atomic.Int64 // written by the scheduler's unload; read by the monitors after the round
 	vram      uint64
+	// load behaviour: 0 = comes up after a short window; 1 = start-up fails after a window
+	// (runner crashed); 2 = blocks until the requesting client goes away or `fail` is closed
+	loadMode int
+	fail     chan struct{}
 }
 
 func (r *c15Runner) Ping(ctx context.Context) error { return nil }
 func (r *c15Runner) WaitUntilRunning(ctx context.Context) error {
+	switch r.loadMode {
+	case 1:
+		time.Sleep(2 * time.Millisecond)
+		return errors.New("c15: runner process exited during start-up")
+	case 2:
+		select {
+		case <-ctx.Done():
+			return ctx.Err()
+		case <-r.fail:
+			return errors.New("c15: runner process exited during start-up")
+		case <-time.After(3 * time.Second):
+			return nil
+		}
+	}
 	time.Sleep(500 * time.Microsecond) // a loading window, so that scheduling overlaps loading
 	return nil
 }
@@ -102,23 +121,61 @@ func (l *c15LockedBuf) Write(p []byte) (int, error) {
 }
 
 func c15Do(h http.Handler, method, path string, body any) (int, string) {
-	var rd io.Reader
+	return c15DoCtx(context.Background(), 3*time.Second, h, method, path, body)
+}
+
+// c15PS issues GET /api/ps; status 0 = the request did not return (PsHandler does not watch the
+// request context, so a lock that is never released wedges it for good).
+func c15PS(h http.Handler) (int, string) {
+	return c15Do(h, "GET", "/api/ps", nil)
+}
+
+// c15DoCtx serves one request on its own goroutine.  Like net/http, the request context ends when
+// the handler returns or the client goes away (`timeout`).  Handlers that do not watch their
+// context (scheduleRunner waits for the scheduler's answer only; the scheduler drops a request
+// whose context is already done without answering) would block the harness for ever: after the
+// context has ended and a grace period has passed the request is abandoned (status 0).
+func c15DoCtx(parent context.Context, timeout time.Duration, h http.Handler, method, path string, body any) (int, string) {
+	var bs []byte
 	switch b := body.(type) {
 	case nil:
 	case []byte:
-		rd = bytes.NewReader(b)
+		bs = b
 	default:
-		bs, _ := json.Marshal(b)
-		rd = bytes.NewReader(bs)
+		bs, _ = json.Marshal(b)
 	}
-	// like net/http: the request context ends when the handler returns (the scheduler releases
-	// the runner on that); a deadline keeps a wedged scheduler from wedging the harness
-	ctx, cancel := context.WithTimeout(context.Background(), 3*time.Second)
-	defer cancel()
-	req := httptest.NewRequest(method, path, rd).WithContext(ctx)
-	w := NewRecorder()
-	h.ServeHTTP(w, req)
-	return w.Code, w.Body.String()
+	ctx, cancel := context.WithTimeout(parent, timeout)
+	grace := time.Second
+	if timeout < 100*time.Millisecond {
+		grace = 150 * time.Millisecond // a client that went away on purpose
+	}
+	type res struct {
+		code int
+		body string
+	}
+	ch := make(chan res, 1)
+	go func() {
+		defer cancel()
+		var rd io.Reader
+		if bs != nil {
+			rd = bytes.NewReader(bs)
+		}
+		req := httptest.NewRequest(method, path, rd).WithContext(ctx)
+		w := NewRecorder()
+		h.ServeHTTP(w, req)
+		ch <- res{w.Code, w.Body.String()}
+	}()
+	select {
+	case r := <-ch:
+		return r.code, r.body
+	case <-ctx.Done():
+	}
+	select {
+	case r := <-ch:
+		return r.code, r.body
+	case <-time.After(grace):
+		return 0, fmt.Sprintf("<no response %v after the request context ended>", grace)
+	}
 }
 
 func TestVerifC15(t *testing.T) {
@@ -184,6 +241,8 @@ func TestVerifC15(t *testing.T) {
 
 	out.Add("workers", workers)
 	out.Add("gomaxprocs", runtime.GOMAXPROCS(0))
+	c15FailedLoadTrials(t, out, root.Fork(), zzverif.EnvInt("VERIF_TRIALS", 120), base, shortToPath)
+	out.Flush()
 	per := time.Duration(secs) * time.Second / time.Duration(rounds)
 	for r := 0; r < rounds; r++ {
 		c15Round(t, out, root.Fork(), r, per, workers, base, shortToPath)
@@ -239,6 +298,148 @@ func c15Why(rs []*c15Runner, path string, t0, t1 time.Time) string {
 	return fmt.Sprintf(" (request took %v, %d runners of the model this round)%s", t1.Sub(t0), n, b.String())
 }
 
+// c15FailedLoadTrials is the directed part of the search: /api/ps requests issued WHILE a model is
+// loading, followed by the load failing (the requesting client goes away, or the runner process
+// dies during start-up), so that the runner is expired, unloaded and removed while ps requests
+// are in flight or queued on its lock.  Every ps must answer 200 in time and list only runners
+// that were alive during the request.
+func c15FailedLoadTrials(t *testing.T, out *zzverif.Out, rng *zzverif.Rng, trials int, base []string, shortToPath map[string]string) {
+	ctx, cancel := context.WithCancel(context.Background())
+	defer cancel()
+	sched := InitScheduler(ctx)
+	sched.getGpuFn = func() discover.GpuInfoList {
+		g := discover.GpuInfo{Library: "metal"}
+		g.TotalMemory = 24 * format.GigaByte
+		g.FreeMemory = 12 * format.GigaByte
+		return []discover.GpuInfo{g}
+	}
+	sched.getCpuFn = sched.getGpuFn
+	var rmu sync.Mutex
+	var runners []*c15Runner
+	created := make(chan *c15Runner, 16)
+	sched.newServerFn = func(gpus discover.GpuInfoList, model string, f *ggml.GGML, adapters []string, projectors []string, opts api.Options, numParallel int) (llm.LlamaServer, error) {
+		r := &c15Runner{modelPath: model, created: time.Now(), vram: 1 << 20, loadMode: 2, fail: make(chan struct{})}
+		rmu.Lock()
+		runners = append(runners, r)
+		rmu.Unlock()
+		created <- r
+		return r, nil
+	}
+	s := &Server{sched: sched}
+	h, err := s.GenerateRoutes(nil)
+	if err != nil {
+		t.Fatalf("C15-SETUP: %v", err)
+	}
+	sched.Run(ctx)
+	live := func(path string, t0, t1 time.Time) bool {
+		rmu.Lock()
+		defer rmu.Unlock()
+		for _, r := range runners {
+			if c := r.closedAt(); r.modelPath == path && !r.created.After(t1) && (c.IsZero() || !c.Before(t0)) {
+				return true
+			}
+		}
+		return false
+	}
+	type psRes struct {
+		code   int
+		body   string
+		t0, t1 time.Time
+	}
+	wedged := false
+	for trial := 0; trial < trials && !wedged; trial++ {
+		tr := rng.Fork()
+		model := base[trial%len(base)]
+		mode := []string{"client-disconnect", "runner-crash"}[tr.Intn(2)]
+		nps := 2 + tr.Intn(7)
+		delay := time.Duration(tr.Intn(600)) * time.Microsecond
+		caseLine := fmt.Sprintf("seed=%d phase=ps-during-failed-load trial=%d mode=%s ps=%d delay=%v", zzverif.Seed(), trial, mode, nps, delay)
+		out.Count("cases")
+		out.Count("failedload_trials")
+		out.Count("failedload_mode_" + mode)
+		gctx, gcancel := context.WithCancel(context.Background())
+		genDone := make(chan int, 1)
+		zero := api.Duration{}
+		go func() {
+			c, _ := c15DoCtx(gctx, 5*time.Second, h, "POST", "/api/generate", api.GenerateRequest{Model: model, Prompt: "hi", Stream: &stream, KeepAlive: &zero})
+			genDone <- c
+		}()
+		var r *c15Runner
+		select {
+		case r = <-created:
+		case <-time.After(3 * time.Second):
+			out.Count("failedload_no_load_started")
+			gcancel()
+			<-genDone
+			continue
+		}
+		res := make(chan psRes, nps)
+		for i := 0; i < nps; i++ {
+			go func() {
+				t0 := time.Now()
+				c, b := c15PS(h)
+				res <- psRes{c, b, t0, time.Now()}
+			}()
+		}
+		time.Sleep(delay) // let some of them reach the runner while it is loading
+		if mode == "client-disconnect" {
+			gcancel()
+		} else {
+			close(r.fail)
+		}
+		for i := 0; i < nps; i++ {
+			p := <-res
+			out.Count("failedload_ps_requests")
+			switch {
+			case p.code == 0:
+				out.L2("ps-hung", caseLine, "GET /api/ps did not return: "+p.body)
+				wedged = true
+			case p.code >= 500 && strings.TrimSpace(p.body) == "":
+				out.L2("panic-recovered", caseLine+" op=ps", fmt.Sprintf("GET /api/ps answered %d with an empty body (recovered panic)", p.code))
+			case p.code != 200:
+				out.L2("ps-5xx", caseLine, fmt.Sprintf("GET /api/ps answered %d %.200s", p.code, p.body))
+			default:
+				var pr api.ProcessResponse
+				if err := json.Unmarshal([]byte(p.body), &pr); err != nil {
+					out.L2("ps-unparsable", caseLine, err.Error())
+					continue
+				}
+				if len(pr.Models) > 0 {
+					out.Count("failedload_ps_saw_loading_runner")
+				}
+				for _, m := range pr.Models {
+					if path, ok := shortToPath[m.Name]; !ok || !live(path, p.t0, p.t1) {
+						out.L2("ps-torn-down-runner", caseLine, fmt.Sprintf("model %s listed but no runner of it was alive during the request", m.Name))
+					}
+				}
+			}
+		}
+		select {
+		case <-genDone:
+		case <-time.After(6 * time.Second):
+			out.Count("failedload_generate_stuck")
+			wedged = true
+		}
+		gcancel()
+		// the failed runner must be gone, and ps must still answer
+		deadline := time.Now().Add(2 * time.Second)
+		for r.closedAt().IsZero() && time.Now().Before(deadline) {
+			time.Sleep(100 * time.Microsecond)
+		}
+		if r.closedAt().IsZero() {
+			out.Count("failedload_runner_not_closed")
+		}
+		if c, b := c15PS(h); c != 200 {
+			kind := "ps-5xx"
+			if c == 0 {
+				kind = "ps-hung"
+				wedged = true
+			}
+			out.L2(kind, caseLine+" after", fmt.Sprintf("GET /api/ps after the failed load answered %d %.200s", c, b))
+		}
+	}
+}
+
 type c15Worker struct {
 	mu   sync.Mutex // worker-local: only the final reader ever contends
 	logs []c15Log
@@ -266,6 +467,9 @@ func c15Round(t *testing.T, out *zzverif.Out, root *zzverif.Rng, round int, per 
 	sched.newServerFn = func(gpus discover.GpuInfoList, model string, f *ggml.GGML, adapters []string, projectors []string, opts api.Options, numParallel int) (llm.LlamaServer, error) {
 		r := &c15Runner{modelPath: model, created: time.Now(), vram: 1 << 20}
 		rmu.Lock()
+		if len(runners)%5 == 3 {
+			r.loadMode = 1 // every fifth load fails: ps must cope with a runner torn down right after loading
+		}
 		runners = append(runners, r)
 		rmu.Unlock()
 		return r, nil
@@ -304,9 +508,16 @@ func c15Round(t *testing.T, out *zzverif.Out, root *zzverif.Rng, round int, per 
 				switch {
 				case k < 25:
 					op = "ps"
-					code, body = c15Do(h, "GET", "/api/ps", nil)
+					code, body = c15PS(h)
 				case k < 40:
 					op = "generate"
+					if rng.Intn(6) == 0 {
+						// a client that goes away almost at once (often while the model is loading)
+						op = "generate-disconnect"
+						code, body = c15DoCtx(context.Background(), time.Duration(200+rng.Intn(1500))*time.Microsecond, h, "POST", "/api/generate",
+							api.GenerateRequest{Model: model, Prompt: "hi", Stream: &stream, KeepAlive: &kaD})
+						break
+					}
 					code, body = c15Do(h, "POST", "/api/generate", api.GenerateRequest{Model: model, Prompt: "hi", Stream: &stream, KeepAlive: &kaD})
 				case k < 50:
 					op = "chat"
@@ -346,7 +557,7 @@ func c15Round(t *testing.T, out *zzverif.Out, root *zzverif.Rng, round int, per 
 					}
 				}
 				l := c15Log{op: op, status: code, t0: t0, t1: time.Now()}
-				if op == "ps" || code >= 500 {
+				if op == "ps" || code >= 500 || code == 0 {
 					l.body = body
 				}
 				w.mu.Lock()
@@ -399,6 +610,13 @@ wait:
 			out.Count("cases")
 			out.Count("op_" + l.op)
 			out.Count(fmt.Sprintf("status_%dxx", l.status/100))
+			if l.op != "ps" && l.status == 0 {
+				// scheduleRunner does not watch the request context (C02's concern): counted only
+				out.Count("abandoned_" + l.op)
+			}
+			if l.op == "ps" && l.status == 0 {
+				out.L2("ps-hung", fmt.Sprintf("seed=%d round=%d op=ps", zzverif.Seed(), round), "GET /api/ps did not return: "+l.body)
+			}
 			if l.status >= 500 {
 				if strings.TrimSpace(l.body) == "" {
 					// gin's Recovery answers 500 with an empty body: a handler panicked
